@@ -295,6 +295,7 @@ impl CaseKind for Case14 {
 pub fn dispatch(kind: &str, v: &Value) -> Option<Outcome> {
     match kind {
         "c14" => serde_json::from_value::<Case14>(v.clone()).ok().map(|c| c.run()),
+        "model-route" => serde_json::from_value::<crate::modelroute::ModelRouteCase>(v.clone()).ok().map(|c| c.run()),
         _ => None,
     }
 }
@@ -346,6 +347,10 @@ pub fn run(ctx: &Ctx) -> i32 {
         let iters = (0..3).map(|k| Iter { batch: if k == 1 { batch } else { 2 - batch }, xseed: i * 10 + k, target_mode: (k % 2) as u8, extra_forward: false, probe_forward_after: false }).collect();
         Some(Case14 { specs, rows, cols, cost: CostKind::Mse, lr: [0.5, 0.125][(i % 2) as usize], pseed: i + 11, int_data: act == Act::None, iters })
     }));
+    {
+        let rc = crate::modelroute::route_cases("c14", ctx.seed, t == Tier::Thorough);
+        st.merge(ctx.run_indexed("through-model-vs-by-hand", rc.len() as u64, None, |i| Some(rc[i as usize].clone())));
+    }
     finish(
         ctx,
         st,
